@@ -30,10 +30,10 @@ def run(chk, scratch):
     if r.violated != "DigestIsContent":
         raise vlib.Inconclusive("sensitivity self-test failed: Hasher_async.cfg did not violate DigestIsContent")
     behs = common.emit_behaviours(chk, scratch, SPEC, "Hasher", "Hasher_emit.cfg", "emit exhaustive (<=2 chunks, 3 calcs)",
-                                  workers=4, limit=(None if thorough else 1500), seed=chk.seed)
+                                  workers=4, limit=(12000 if thorough else 1500), seed=chk.seed)
     behs += common.emit_behaviours(chk, scratch, SPEC, "Hasher", "Hasher_emit_sim.cfg", "emit simulated (<=4 chunks, 6 calcs)",
-                                   simulate=(3000 if thorough else 150), depth=8, seed=chk.seed,
-                                   limit=(20000 if thorough else 800))
+                                   simulate=(1500 if thorough else 150), depth=8, seed=chk.seed,
+                                   limit=(6000 if thorough else 800))
     chk.sample({"behaviour": behs[0]})
     chk.sample({"behaviour": behs[-1]})
     common.replay(chk, vh, scratch, "c20", behs, crash_pkgs=("hashing", "safeio"))
